@@ -161,7 +161,9 @@ def programs(tier, seed):
         nC = rng.randint(1, 4) if rng.random() < 0.4 else 0
         specs.append((nA, nB, nC, modes[k % len(modes)], k % 2 == 0))
     # around the 512-element split (the split applies to the *defined* combinations)
-    specs.append((23, 23, 0, "most" if rng.random() < 0.5 else "all", rng.random() < 0.5))   # 529 (about 513 when "most")
+    specs.append((23, 23, 0, "all", rng.random() < 0.5))   # 529 defined: odd, above the split
+    if tier != "quick":
+        specs.append((23, 23, 0, "most", True))             # about 513 defined
     if tier != "quick":
         specs.append((23, 22, 0, "all", True))      # 506: just below
         specs.append((16, 32, 0, "all", False))     # 512: exactly at the limit
